@@ -58,6 +58,10 @@ def engine_val(kind):
 
 
 def check(rep, an, tier):
+    R.rule_alias(rep, an.model, "dreye.api.estimator", "ReceptorEstimator", "sample_in_gamut", "sample_in_hull")
+    # the bounds every clause below speaks of are the REGISTERED ones: registration keeps / replaces exactly what it is given
+    from .C14 import register_bounds_rule
+    register_bounds_rule(rep, an)
     results = []
     entry = "sample_in_hull"
     for eng in (None, "Sobol", "Halton", "LHC", "object"):
@@ -199,6 +203,15 @@ def check(rep, an, tier):
                 R.rule_purity(rep, res, ent)
                 R.rule_index_space(rep, res, ent)
                 R.rule_dtype(rep, res, ent)
+    # ---- re-expansion to the requested total: barycentric coordinates with total L are L × (coordinates with total 1) — the total
+    #      enters as one common factor of the finished coordinates, not as an entry of the homogeneous vector that is transformed
+    res = an.run("dreye.api.barycentric:cartesian_to_barycentric",
+                 kws=dict(X=arr("X", S("N", "Fm1"), {}), L1=num("L1", U_REL, sign="POS"), centered=flag("centered", False)), config="L1 given")
+    st = _factor_only(res.value.term, ("in", "L1"))
+    rep.check("R-QTY", "the requested total scales the finished barycentric coordinates as one common factor", st, where=res.fn.loc(),
+              construct="L1 in cartesian_to_barycentric", entry="cartesian_to_barycentric", config=res.config,
+              msg="the total enters the coordinates through the linear map (as an entry of the stacked vector) instead of multiplying its result: "
+                  "only the offset term is scaled, the chromaticity of the re-expanded samples is shifted and they leave the gamut for totals ≠ 1")
     rep.advisory("l1 sampling draws in the L1-normalised image of ALL gamut vertices (the cone's cross-section) and rescales to l1; that set "
                  "equals the gamut's slice at total l1 only for small l1 — membership of l1-samples is not decided here (reported by an "
                  "independent run-time probe: 80 % → 0 % in-gamut as l1 grows)")
@@ -206,6 +219,35 @@ def check(rep, an, tier):
     rep.require("R-SIMPLEX", 10)
     rep.require("R-API", 5)
     rep.require("R-FORWARD", 10)
+
+
+_WRAP = {"getitem", "atleast", "asarray", "astype", "broadcast_to", "reshape", "array", "copy", "tuple", "list", "float", "elem", "T", "ravel", "squeeze"}
+
+
+def _factor_only(term, leaf, depth=0):
+    """three-valued: the leaf occurs in `term` only as a factor of top-level products (through shape / dtype wrappers)?
+    True: yes; False: it also (or only) enters below a sum, a matrix product, a stack or another function; None: unknown / absent"""
+    def contains(t):
+        if t == leaf:
+            return True
+        return isinstance(t, tuple) and any(contains(x) for x in t[1:] if isinstance(x, tuple))
+    if term is None or not isinstance(term, tuple) or depth > 60:
+        return None
+    if not contains(term):
+        return None
+    if term == leaf:
+        return True
+    head = term[0]
+    subs = [x for x in term[1:] if isinstance(x, tuple)]
+    if head in ("mul", "div") or head in _WRAP:
+        rs = [_factor_only(x, leaf, depth + 1) for x in subs if contains(x)]
+        if head == "div" and len(subs) > 1 and contains(subs[1]):
+            return False
+        return False if any(r is False for r in rs) else (True if rs and all(r is True for r in rs) else None)
+    if head == "phi":
+        rs = [_factor_only(x, leaf, depth + 1) for x in subs if contains(x)]
+        return False if any(r is False for r in rs) else (True if rs and all(r is True for r in rs) else None)
+    return False
 
 
 def _reg(an):
